@@ -12,6 +12,9 @@ structure Obs where
   min : String
   full : String
   again : String
+  /-- the SAME compiled expression of the minimal text evaluated a second time in a fresh frame (same process, globals
+      restored): `""` when the harness did not observe it (old corpus lines) -/
+  same : String := ""
   deriving Repr, DecidableEq
 
 /-- `r` starts with `p` (on character lists, so that the kernel can evaluate the predicate). -/
@@ -26,10 +29,13 @@ def isParserCapacity (r : String) : Bool := pre "syntaxcap@" r || pre "err:synta
 
 /-- a generated (syntactically valid) program: first violated clause, if any. -/
 def checkProgram (o : Obs) : Option String :=
-  if isCrash o.min || isCrash o.full || isCrash o.again then some "no_crash"
-  else if isTimeout o.min || isTimeout o.full || isTimeout o.again then none      -- `while` may diverge
+  if isCrash o.min || isCrash o.full || isCrash o.again || isCrash o.same then some "no_crash"
+  else if isTimeout o.min || isTimeout o.full || isTimeout o.again || isTimeout o.same then none      -- `while` may diverge
   else if isParserCapacity o.min || isParserCapacity o.full then none
   else if o.min != o.again then some "deterministic"
+  -- "the same result every time it is evaluated in the same environment": also for ONE compiled expression evaluated twice
+  -- (an Expression node must not keep state between evaluations, e.g. a container built once and handed out again)
+  else if o.same != "" && o.min != o.same then some "deterministic_same_expression"
   else if o.min != o.full then some "precedence_as_declared"
   else if pre "syntax" o.min then some "generated_program_parses"
   else if !(pre "v:" o.min || pre "e" o.min) then some "value_or_script_error"
@@ -48,6 +54,62 @@ def checkHostile (r : String) : Option String :=
   else if pre "err:syntax@" r && !syntaxLocated r then some "syntax_error_located"
   else if r == "ok" || r == "timeout" || pre "err:" r then none
   else some "value_or_script_error"
+
+/-! ### number and duration literals (doc/17-language-reference.md "Numeric literals" / "Duration literals")
+
+The reference: a literal `D+(.D+)?` is that decimal number; with a suffix it is a duration in SECONDS: `ms` milliseconds, `s` seconds,
+`m` minutes, `h` hours, `d` days.  The value is stated here as an EXACT rational; the implementation's binary64 must equal it
+up to rounding (relative error ≤ 2⁻⁵⁰: strtod plus at most three roundings of the multiplications — the reference does not
+prescribe the intermediate arithmetic, `* 60 * 60` and `* 3600.0` are both fine). -/
+
+/-- suffix ↦ factor as (numerator, denominator) -/
+def suffixFactor (s : List Char) : Option (Nat × Nat) :=
+  if s == [] then some (1, 1)
+  else if s == ['m', 's'] then some (1, 1000)
+  else if s == ['s'] then some (1, 1)
+  else if s == ['m'] then some (60, 1)
+  else if s == ['h'] then some (3600, 1)
+  else if s == ['d'] then some (86400, 1)
+  else none
+
+def natOfDigits (ds : List Char) : Nat := ds.foldl (fun acc c => acc * 10 + (c.toNat - 48)) 0
+
+/-- the exact value (numerator, denominator) of the literal text, `none` when the text is not `D+(.D+)?(ms|s|m|h|d)?` -/
+def litExactL (cs : List Char) : Option (Nat × Nat) :=
+  let ip := cs.takeWhile Char.isDigit
+  let r1 := cs.dropWhile Char.isDigit
+  if ip.isEmpty then none
+  else match r1 with
+    | '.' :: r =>
+      let fp := r.takeWhile Char.isDigit
+      if fp.isEmpty then none
+      else (suffixFactor (r.dropWhile Char.isDigit)).map fun f => (natOfDigits (ip ++ fp) * f.1, 10 ^ fp.length * f.2)
+    | r => (suffixFactor r).map fun f => (natOfDigits ip * f.1, f.2)
+
+def litExact (text : String) : Option (Nat × Nat) := litExactL text.toList
+
+/-- `bits` (an IEEE binary64 pattern) denotes a finite non-negative number within relative error 2⁻⁵⁰ of `num/den`. -/
+def bitsNear (bits num den : Nat) : Bool :=
+  let sign := bits / 2 ^ 63
+  let e := (bits / 2 ^ 52) % 2048
+  let f := bits % 2 ^ 52
+  if e == 2047 then false                                  -- inf / nan
+  else if num == 0 then e == 0 && f == 0                   -- ±0
+  else if sign == 1 then false
+  else
+    -- value = m · 2^(ex - 1075)
+    let m := if e == 0 then f else f + 2 ^ 52
+    let ex := if e == 0 then 1 else e
+    -- compare A/B = m·2^(ex-1075)·den / num with 1 (the power of two on the side where its exponent is non-negative)
+    let a := if ex ≥ 1075 then m * 2 ^ (ex - 1075) * den else m * den
+    let b := if ex ≥ 1075 then num else num * 2 ^ (1075 - ex)
+    (if a ≥ b then a - b else b - a) * 2 ^ 50 ≤ b
+
+/-- one literal as the real lexer evaluated it (`bits`): first violated clause -/
+def checkLiteral (text : String) (bits : Nat) : Option String :=
+  match litExact text with
+  | some (num, den) => if bitsNear bits num den then none else some "literal_value_as_documented"
+  | none => none            -- not a literal of the sub-language: nothing demanded
 
 /-- the alphabetic prefix of a case id names the family the generator drew it from (`scope17` → `scope`). -/
 def tagOf (id : String) : String := String.ofList (id.toList.takeWhile Char.isAlpha)
@@ -69,6 +131,17 @@ def tagOf (id : String) : String := String.ofList (id.toList.takeWhile Char.isAl
       `this` as it was (expression.cpp:528-532; family `selfkeep`).
     * `prototype_method_on_empty_string` — String methods on the empty string see it as `this` (vmops.hpp:86; family
       `emptystr`: `"".len() == 0`, `"".upper() == ""` …).
+    * `flow_control_leaves_enclosing_construct` — `return` ends the enclosing FUNCTION with its value, `break`/`continue` end / restart
+      the innermost enclosing LOOP, from wherever they are executed: the try body, the except handler, a conditional nested in
+      either, a nested loop (doc/17 "Conditional Statements"/"While Loops"/"For Loops"/"Functions"/"Exceptions"; family `flow`).
+    * `literal_creates_new_container` — every evaluation of an array/dictionary literal yields a NEW container (doc/17 "Array"/
+      "Dictionary": mutable values; a literal in a function or loop body that is mutated in place must not be seen changed by the
+      next evaluation; family `freshlit`).
+    * `duration_arithmetic_as_documented` — programs made of number/duration literals of every suffix, compared and combined
+      (`1000ms == 1s`, `5m * 10`): exactly the reference's result (family `literal`).
+    * `callback_iteration_over_snapshot` — Array#map/filter/any/all visit exactly the elements the array had when the method was called,
+      whatever the callback does to that array (add, remove, clear, set, index assignment; array-script.cpp after 1f98393): no element
+      visited twice, none read from a stale buffer, the array itself ends as the callbacks left it (family `cbmut`).
     * `array_join_total_on_scalars` — doc/18 "Array#join: joins all elements of the array": joining scalars never raises
       (family `joinscalar`; violated by the unchanged tree for Boolean elements, finding F-C15e). -/
 def checkAgainstReference (id impl : String) (ref : Option String) (refDepth : Nat) : Option String :=
@@ -80,6 +153,10 @@ def checkAgainstReference (id impl : String) (ref : Option String) (refDepth : N
   else if tagOf id == "elif" && ref.isSome && ref != some impl then some "conditional_branches_in_source_order"
   else if tagOf id == "selfkeep" && ref.isSome && ref != some impl then some "scoping_this_restored_after_error"
   else if tagOf id == "emptystr" && ref.isSome && ref != some impl then some "prototype_method_on_empty_string"
+  else if tagOf id == "flow" && ref.isSome && ref != some impl then some "flow_control_leaves_enclosing_construct"
+  else if tagOf id == "freshlit" && ref.isSome && ref != some impl then some "literal_creates_new_container"
+  else if tagOf id == "cbmut" && ref.isSome && ref != some impl then some "callback_iteration_over_snapshot"
+  else if tagOf id == "literal" && ref.isSome && ref != some impl then some "duration_arithmetic_as_documented"
   else if tagOf id == "joinscalar" && !pre "v:" impl then some "array_join_total_on_scalars"
   else none
 
